@@ -13,6 +13,7 @@ every path instead): totality/transitivity of `JV.cmp` on objects, the multi-ste
 -/
 import SuccinctlyVerif.Model.Jq
 import SuccinctlyVerif.Proof.JqOrder
+import SuccinctlyVerif.Proof.JqCodec
 namespace SV.Props.C25
 open SV.Jq
 variable {N : Type} [NumOps N]
@@ -361,6 +362,14 @@ theorem to_from_entries (fs : List (String × JV N)) (h : NoDupKeys fs) : JV.mkO
   simp only [JV.mkObj]
   rw [foldl_insert_append [] fs (by simpa using h)]
   simp
+
+/-! ### encoders / decoders -/
+
+/-- **`base64_round_trip`**: decoding the `@base64` text of any byte string gives the bytes back. -/
+theorem base64_round_trip (bs : List UInt8) : b64dec (b64enc bs) = some bs := SV.Jq.base64_round_trip bs
+
+/-- **`uri_round_trip`**: percent-decoding the `@uri` text of any byte string gives the bytes back. -/
+theorem uri_round_trip (bs : List UInt8) : uriDec (uriEnc bs) = some bs := SV.Jq.uri_round_trip bs
 
 /-! ### non-vacuity -/
 
